@@ -238,3 +238,34 @@ func symxPublishes(ps []packet.Packet) []*packet.Publish {
 }
 
 var _ = rt.Native
+
+// ---- full pipeline: processor workers, log consumer, writer ----
+
+type symxTaps struct{}
+
+func (symxTaps) Run(ctx context.Context)                                        {}
+func (symxTaps) Dispatch(context.Context, string, *packet.Publish) error { return nil }
+
+type symxPipeline struct {
+	*symxBroker
+	proc        *packetProcessor
+	distributor *PublishDistributor
+}
+
+// start wires and launches the real packet processor (20 workers), the real log consumer
+// (SchedulePublishes) and the real writer loop around the fake log.
+func (b *symxBroker) start(tr publishDistributorTransport) *symxPipeline {
+	p := &symxPipeline{symxBroker: b}
+	p.distributor = &PublishDistributor{ID: b.id, Transport: tr, State: b.state.Subscriptions(), Storage: b.log, Logger: zap.NewNop()}
+	p.proc = NewPacketProcessor(b.local, b.state, b.writer, symxTaps{}, p.distributor, b.acks).(*packetProcessor)
+	go b.writer.Run(b.ctx, b.log)
+	go p.proc.Run(b.ctx)
+	go SchedulePublishes(b.id, b.writer, b.log)(b.ctx)
+	rt.Quiesce()
+	return p
+}
+
+// expire runs an expiry sweep at the given virtual instant (what the writer's ticker does every second).
+func (b *symxBroker) expire(sec, nsec int64) {
+	b.acks.Expire(time.Unix(sec, nsec))
+}
